@@ -121,7 +121,7 @@ def run_case(case) -> list[Failure]:
 
     def brief():
         return (f"{ {k: v for k, v in case.items() if k not in ('kind', 'graph')} } graph={[(n['o'], n['code'], n.get('next'), n.get('form')) for n in nodes]} -> servers saw "
-                f"{[(c['origin'][1], c['method'], c['target']) for c in contacts]}, result {('status %d' % result.status) if result is not None else type(exc).__name__ + ': ' + str(exc)[:100]}")
+                f"{[((c['origin'] or ('?', '?', 0))[1], c['method'], c['target']) for c in contacts]}, result {('status %d' % result.status) if result is not None else type(exc).__name__ + ': ' + str(exc)[:100]}")
 
     if run.world.violations:
         fails.append(Failure("wire", {**sig0, "what": run.world.violations[0][0]}, f"{run.world.violations[:2]}: {brief()}"))
